@@ -130,7 +130,7 @@ theorem spreadsFlat_sub (n : Name) : ∀ (k : Nat) (ss : List Selection), Select
           exact ih ss' hss hn
       · exact Or.inr (ihs (by omega) hn)
 
-theorem frag?_mem {D : Doc} {n : Name} {f : FragmentDef} (h : Valid.frag? D n = some f) : f ∈ fragsOf D := by
+theorem frag?_mem_frags {D : Doc} {n : Name} {f : FragmentDef} (h : Valid.frag? D n = some f) : f ∈ fragsOf D := by
   unfold Valid.frag? at h
   rw [frags_eq] at h
   exact List.mem_of_find?_eq_some h
@@ -150,7 +150,7 @@ theorem reachable_facts (ss : List Selection) :
     | none => simp [hf] at hy
     | some f =>
       simp only [hf, spreadsDeep_eq'] at hy
-      exact hSD f (frag?_mem hf) y hy
+      exact hSD f (frag?_mem_frags hf) y hy
   obtain ⟨h1, h2⟩ := closure_closed _ (fragNamesOf D) hU (Valid.reachFuel D) (Valid.dedup (Valid.spreadsDeep ss)) (by
     have := unseenIn_le (fragNamesOf D) (Valid.dedup (Valid.spreadsDeep ss))
     have hlen : (fragNamesOf D).length = (fragsOf D).length := by simp [fragNamesOf]
@@ -175,7 +175,7 @@ theorem reachableFlat_facts (ss : List Selection) :
     | none => simp [hf] at hy
     | some f =>
       simp only [hf] at hy
-      exact hSD f (frag?_mem hf) y (spreadsFlat_sub y _ _ (Nat.le_refl _) hy)
+      exact hSD f (frag?_mem_frags hf) y (spreadsFlat_sub y _ _ (Nat.le_refl _) hy)
   obtain ⟨h1, h2⟩ := closure_closed _ (fragNamesOf D) hU (Valid.reachFuel D) (Valid.dedup (spreadsFlat ss)) (by
     have := unseenIn_le (fragNamesOf D) (Valid.dedup (spreadsFlat ss))
     have hlen : (fragNamesOf D).length = (fragsOf D).length := by simp [fragNamesOf]
